@@ -106,6 +106,13 @@ theorem unclosed_sources_rejected {Pc : Type} (pp : P Pipeline) (ps : Pc → Str
     parseSources pp ('[' :: (ps p ++ (more.map (chunkPipe ps)).flatten)) = .failure :=
   parseSources_unclosed pp ps pt wf hpp p more hp hm
 
+/-- unbalanced brackets, one too few (whole text): `name[ p₁, p₂, …` with the source list still open at the
+    end of the text is rejected, for all written pipelines `pᵢ` of every depth and layout -/
+theorem missing_bracket_rejected {name : Str} (hn : IsIdent name) (d : Nat) (p : CPipe d) (more : List (CPipe d))
+    (hp : WF d p) (hm : ∀ q ∈ more, WF d q) :
+    parseVpl (name ++ '[' :: (render d p ++ (more.map (chunkPipe (render d))).flatten)) = .err :=
+  parseVpl_unclosed hn d p more hp hm
+
 /-! ## unknown operations, missing and mistyped parameters are rejected -/
 
 theorem unknown_read_operation_rejected (name : Str) (props : List (Str × List Str)) (sources : List (List Node))
